@@ -3,9 +3,11 @@
    ring R with Leibniz equality (Z, the rationals Qc, polynomial rings, ...), every matrix
    size, every matrix A, right-hand side b and every duplicate-free list of constrained
    dofs in ANY order. *)
-From Coq Require Import List Arith Bool ZArith Ring Sorted QArith.
-From Verif.lib Require Import Slice.
-From Verif.C10 Require Import Model Proofs.
+From Coq Require Import List Arith Bool ZArith Ring Sorted QArith Qcanon.
+From Verif.lib Require Import Slice Bsp.
+From Verif.C02 Require Proofs Proofs_ref.
+From Verif.C14 Require Model Spec.
+From Verif.C10 Require Import Model Model_ic Proofs Proofs_ic Proofs_mp.
 Import ListNotations.
 Local Open Scope nat_scope.
 
@@ -184,21 +186,127 @@ Theorem ravel_injective : forall shape mi mi', valid_mi shape mi -> valid_mi sha
 Proof. exact ravel_inj. Qed.
 Print Assumptions ravel_injective.
 
-(* compute_initial_condition_01: the two coefficients per spatial dof solve the 2x2 collocation
-   system, i.e. value and first time derivative at the initial face are the interpolated g0, g1;
-   at the end point of an open knot vector (matrix [[1,0],[-c,c]]) the first coefficient is the
-   value itself.
-   NOT PROVED (initial_condition_01_reproduces in full): that active_deriv returns that matrix and
-   that only two basis functions contribute at the end point (B-spline facts of C02); evaluated on
-   the implementation by the harness oracle instead. *)
-Theorem initial_condition_solve_partial : forall c00 c01 c10 c11 g0 g1 : Q,
-  (~ c00 * c11 - c01 * c10 == 0)%Q ->
-  let a := solve2 c00 c01 c10 c11 g0 g1 in
-  (c00 * fst a + c01 * snd a == g0 /\ c10 * fst a + c11 * snd a == g1)%Q.
-Proof. exact solve2_correct. Qed.
-Print Assumptions initial_condition_solve_partial.
+(* ---- compute_initial_condition_01 (on top of C02's B-spline theorems) ----
+   For EVERY open knot vector kv of degree p >= 1 on any interval [t0, t1] (open_kv is C02's
+   boolean well-formedness check; knots are arbitrary rationals):
+   the matrix active_deriv(kv, t0, 1)[:2, :2] is [[1, 0], [-c, c]] with c = p / (t_{p+1} - t_0) <> 0,
+   the matrix active_deriv(kv, t1, 1)[:2, -2:] is [[0, 1], [-c', c']] with c' = p / (t_last - t_{n-p-2}). *)
+Theorem initial_condition_bdcolloc_left : forall kv p, open_kv kv p = true -> 1 <= p ->
+  ic_bdcolloc kv p 0 = (1, 0, - cleft kv p, cleft kv p)%Qc /\ cleft kv p <> 0%Qc.
+Proof. exact (fun kv p H1 H2 => conj (ic_bdcolloc_left kv p H1 H2) (cleft_nonzero kv p H1 H2)). Qed.
+Print Assumptions initial_condition_bdcolloc_left.
 
-Theorem initial_condition_endpoint_partial : forall c g0 g1 : Q, (~ c == 0)%Q ->
-  let a := solve2 1 0 (- c) c g0 g1 in (fst a == g0 /\ snd a == g0 + g1 / c)%Q.
-Proof. exact solve2_endpoint. Qed.
-Print Assumptions initial_condition_endpoint_partial.
+Theorem initial_condition_bdcolloc_right : forall kv p, open_kv kv p = true -> 1 <= p ->
+  ic_bdcolloc kv p 1 = (0, 1, - cright kv p, cright kv p)%Qc /\ cright kv p <> 0%Qc.
+Proof. exact (fun kv p H1 H2 => conj (ic_bdcolloc_right kv p H1 H2) (cright_nonzero kv p H1 H2)). Qed.
+Print Assumptions initial_condition_bdcolloc_right.
+
+(* initial_condition_01_reproduces: let (a, b) be the two coefficients computed for one spatial dof
+   from the interpolation coefficients g0 (value) and g1 (time derivative).  Then EVERY spline in
+   the time direction whose two boundary coefficients are a, b -- whatever its other coefficients
+   -- has value g0 and first derivative g1 at the end point: only two basis functions contribute.
+   Nref / dNref are the Cox-de Boor reference and its derivative recursion (lib/Bsp.v), sumf the
+   finite sum of C02.  side 0: coefficients 0 and 1 at t0 = kv[0]. *)
+Theorem initial_condition_01_reproduces : forall kv p coef g0 g1,
+  open_kv kv p = true -> 1 <= p ->
+  nth 0 coef 0%Qc = fst (ic_coeffs kv p 0 g0 g1) -> nth 1 coef 0%Qc = snd (ic_coeffs kv p 0 g0 g1) ->
+  C02.Proofs_ref.sumf (fun j => nth j coef 0 * Nref kv p j (kn kv 0))%Qc 0 (numdofs kv p) = g0 /\
+  C02.Proofs_ref.sumf (fun j => nth j coef 0 * dNref kv 1 p j (kn kv 0))%Qc 0 (numdofs kv p) = g1.
+Proof. exact (fun kv p coef g0 g1 H1 H2 => ic_reproduces_left kv p H1 H2 coef g0 g1). Qed.
+Print Assumptions initial_condition_01_reproduces.
+
+(* side 1: coefficients numdofs-2 and numdofs-1 at t1 = kv[-1] *)
+Theorem initial_condition_01_reproduces_right : forall kv p coef g0 g1,
+  open_kv kv p = true -> 1 <= p ->
+  nth (numdofs kv p - 2) coef 0%Qc = fst (ic_coeffs kv p 1 g0 g1) ->
+  nth (numdofs kv p - 1) coef 0%Qc = snd (ic_coeffs kv p 1 g0 g1) ->
+  C02.Proofs_ref.sumf (fun j => nth j coef 0 * Nref kv p j (kn kv (length kv - 1)))%Qc 0 (numdofs kv p) = g0 /\
+  C02.Proofs_ref.sumf (fun j => nth j coef 0 * dNref kv 1 p j (kn kv (length kv - 1)))%Qc 0 (numdofs kv p) = g1.
+Proof. exact ic_reproduces_right_numdofs. Qed.
+Print Assumptions initial_condition_01_reproduces_right.
+
+(* the computed coefficients in closed form *)
+Theorem initial_condition_coeffs : forall kv p g0 g1, open_kv kv p = true -> 1 <= p ->
+  ic_coeffs kv p 0 g0 g1 = (g0, g0 + g1 / cleft kv p)%Qc /\
+  ic_coeffs kv p 1 g0 g1 = (g0 - g1 / cright kv p, g0)%Qc.
+Proof. exact (fun kv p g0 g1 H1 H2 => conj (ic_coeffs_left kv p H1 H2 g0 g1) (ic_coeffs_right kv p H1 H2 g0 g1)). Qed.
+Print Assumptions initial_condition_coeffs.
+
+(* ---- Multipatch.compute_dirichlet_bcs on top of C14's numbering ----
+   The loop with its per-patch cache renumbers every condition with the index map of ITS patch,
+   for every list of conditions in any order and with any repetition of patches ... *)
+Theorem mp_loop_any_order : forall (X : Type) (p2g_of : nat -> list nat) (conds : list (mp_cond X)),
+  mp_loop X p2g_of conds =
+  map (fun c : mp_cond X => let '(p, loc, vals) := c in (renumber (p2g_of p) loc, vals)) conds.
+Proof. exact mp_loop_spec. Qed.
+Print Assumptions mp_loop_any_order.
+
+(* ... hence (mp_bcs_glued) the returned indices are exactly the glued numbers glob(p, i) of C14's
+   model of the constrained local dofs, strictly increasing (every glued dof once), and each glued
+   dof carries the value of its first occurrence in the condition list. *)
+Theorem mp_bcs_glued : forall (X : Type) (d : X) (st : C14.Model.state) (Ns : list nat) (conds : list (mp_cond X)),
+  Forall (cond_valid X Ns) conds ->
+  let r := mp_compute_dirichlet_bcs X d (C14.Model.patch_to_global_idx st Ns) conds in
+  StronglySorted lt (fst r) /\ NoDup (fst r) /\
+  (forall g, In g (fst r) <->
+     exists p loc vals i, In (p, loc, vals) conds /\ In i loc /\ g = C14.Model.glob st Ns (p, i)) /\
+  length (snd r) = length (fst r) /\
+  (forall t, t < length (fst r) ->
+     let g := nth t (fst r) 0 in
+     let k := first_pos g (glued_indices X st Ns conds) in
+     k < length (glued_indices X st Ns conds) /\ nth k (glued_indices X st Ns conds) 0 = g /\
+     nth t (snd r) d = nth k (all_values X conds) d).
+Proof. exact mp_bcs_glued_l. Qed.
+Print Assumptions mp_bcs_glued.
+
+(* two constrained local dofs are represented by the same entry iff the joins connect them
+   (C14.glue_is_closure), for every join history ps *)
+Theorem mp_bcs_one_entry_per_class : forall (X : Type) (d : X) ps Ns (conds : list (mp_cond X)) p loc vals i q loc' vals' j,
+  let st := fold_left C14.Model.join1 ps C14.Model.init in
+  Forall (cond_valid X Ns) conds ->
+  In (p, loc, vals) conds -> In i loc -> In (q, loc', vals') conds -> In j loc' ->
+  let r := mp_compute_dirichlet_bcs X d (C14.Model.patch_to_global_idx st Ns) conds in
+  In (C14.Model.glob st Ns (p, i)) (fst r) /\ In (C14.Model.glob st Ns (q, j)) (fst r) /\
+  (C14.Model.glob st Ns (p, i) = C14.Model.glob st Ns (q, j) <-> C14.Spec.conn ps (p, i) (q, j)).
+Proof. exact mp_bcs_classes_l. Qed.
+Print Assumptions mp_bcs_one_entry_per_class.
+
+(* ---- faces ----
+   boundary_dofs and boundary_cells (the same slice function on numdofs resp. numspans) return
+   exactly the multi-indices with coordinate 0 resp. n-1 on the axis of the face, each once,
+   for every shape, every accepted bdspec (names and pairs) and every flip pattern. *)
+Theorem boundary_dofs_face : forall numdofs b flip ax side,
+  parse_bdspec b (length numdofs) = Some (ax, side) -> 0 < nth ax numdofs 0 ->
+  exists l, boundary_dofs numdofs b flip = Some l /\ NoDup l /\
+    (forall r, In r l <-> exists mi, on_face numdofs ax side mi /\ r = ravel numdofs mi).
+Proof. exact boundary_slice_face_l. Qed.
+Print Assumptions boundary_dofs_face.
+
+Theorem boundary_cells_face : forall numspans b ax side,
+  parse_bdspec b (length numspans) = Some (ax, side) -> 0 < nth ax numspans 0 ->
+  exists l, boundary_cells numspans b = Some l /\ NoDup l /\
+    (forall r, In r l <-> exists mi, on_face numspans ax side mi /\ r = ravel numspans mi).
+Proof. exact (fun s b => boundary_slice_face_l s b []). Qed.
+Print Assumptions boundary_cells_face.
+
+(* one boundary condition: the face dofs, blocked per component for vector data *)
+Theorem dirichlet_indices_face : forall shape b nc ax side,
+  parse_bdspec b (length shape) = Some (ax, side) -> 0 < nth ax shape 0 ->
+  exists l, dirichlet_indices shape b nc = Some l /\
+    (forall r, In r l <->
+       exists mi, on_face shape ax side mi /\
+         (if Nat.eqb nc 0 then r = ravel shape mi
+          else exists j, j < nc /\ r = ravel shape mi + j * prod_list shape)).
+Proof. exact dirichlet_indices_spec. Qed.
+Print Assumptions dirichlet_indices_face.
+
+(* compute_dirichlet_bcs(('all', g)) = combine_bcs over all 2d faces: every boundary dof (of every
+   component) exactly once, in increasing order -- corners and edges shared by several faces included *)
+Theorem dirichlet_bcs_all_each_dof_once : forall shape nc, Forall (fun n => 0 < n) shape ->
+  exists l, dirichlet_bcs_all_indices shape nc = Some l /\ StronglySorted lt l /\ NoDup l /\
+    (forall r, In r l <->
+       exists ax side mi, ax < length shape /\ side < 2 /\ on_face shape ax side mi /\
+         (if Nat.eqb nc 0 then r = ravel shape mi
+          else exists j, j < nc /\ r = ravel shape mi + j * prod_list shape)).
+Proof. exact dirichlet_bcs_all_spec. Qed.
+Print Assumptions dirichlet_bcs_all_each_dof_once.
